@@ -61,13 +61,32 @@ func typedReaderAt(r *rt.Run, img []byte, sim io.ReaderAt) io.ReaderAt {
 		r.Stats["arg.readerat."+[]string{"simdisk", "bytes.Reader", "strings.Reader", "io.SectionReader(exact)"}[k]]++
 		r.Probe("device-handed-in-as-a-standard-concrete-type")
 	}
+	// the object may have been read sequentially before it is handed in (magic
+	// sniffed, whole file checksummed, position left at the end): ReadAt does
+	// not care where the sequential position is
+	used := func(rs io.ReadSeeker) {
+		switch t.Draw(4, "arg.readerat.used") {
+		case 1:
+			io.CopyN(io.Discard, rs, 8)
+		case 2:
+			io.Copy(io.Discard, rs)
+		case 3:
+			rs.Seek(int64(len(img)/2), io.SeekStart)
+		}
+	}
 	switch k {
 	case 1:
-		return bytes.NewReader(img)
+		b := bytes.NewReader(img)
+		used(b)
+		return b
 	case 2:
-		return strings.NewReader(string(img))
+		b := strings.NewReader(string(img))
+		used(b)
+		return b
 	case 3:
-		return io.NewSectionReader(bytes.NewReader(img), 0, int64(len(img)))
+		b := io.NewSectionReader(bytes.NewReader(img), 0, int64(len(img)))
+		used(b)
+		return b
 	}
 	return sim
 }
